@@ -11,6 +11,9 @@ HERE = os.path.dirname(os.path.abspath(__file__))
 VERIF = os.path.dirname(HERE)
 ENV = dict(os.environ, CARGO_NET_OFFLINE="true")
 ENV.pop("RUSTFLAGS", None)
+OUT = os.environ.get("VERIF_OUT_DIR") or VERIF
+if os.environ.get("VERIF_TARGET_DIR"):
+    ENV["CARGO_TARGET_DIR"] = os.path.join(os.environ["VERIF_TARGET_DIR"], "miri")
 
 
 def splitmix(x):
@@ -114,8 +117,8 @@ def main():
                 bad, out = k, o2
                 break
         flags = f"-Zmiri-seed={bad} -Zmiri-preemption-rate={r}" if bad is not None else f"-Zmiri-many-seeds=0..{n_seeds} -Zmiri-preemption-rate={r}"
-        os.makedirs(os.path.join(VERIF, "replays"), exist_ok=True)
-        path = os.path.join(VERIF, "replays", f"{prop}-miri-{seed}-{s}.json")
+        os.makedirs(os.path.join(OUT, "replays"), exist_ok=True)
+        path = os.path.join(OUT, "replays", f"{prop}-miri-{seed}-{s}.json")
         json.dump({"engine": "miri", "property": prop, "scenario": s, "flags": flags, "kind": kind, "message": first_line(out)}, open(path, "w"), indent=1)
         print(f"VIOLATION property={prop} replay={path}")
         print(f"  engine=miri rule={prop}/miri/{kind} scenario={s} {flags}")
